@@ -24,7 +24,7 @@ func init() {
 			"C08.max: internal.Max/Min/SmallestNonzero switch tables pair each reflect.Kind with the boxed type and math constant of that kind (re-checked under GOARCH=386 in the thorough tier); Bytes uses Max for the ten integer kinds and the round-trip test for the float kinds.",
 		NotDecided:  []string{"exactness of float↔uint64 conversions at the 2^53/2^64 boundaries (platform-defined)", "Bytes[float] results"},
 		Assumptions: []string{"bits.Mul64 returns the exact 128-bit product", "strconv.ParseUint(s,10,64) is exact or fails"},
-		Technique:   "constant-table reading + must-pass-through dominator rules over go/ssa",
+		Technique:   "constant-table reading + decision-table extraction (newSize, text path, Bytes per kind, Max/Min tables) over go/ssa",
 	})
 }
 
